@@ -81,7 +81,7 @@ def _maybe_finite(prods):
 
 def replay(case):
     from harness import cfgh, guard
-    g, start, tagged = cfgh.make(case["prods"], case["vpool"], case["tpool"], declare=case.get("declare", False))
+    g, start, tagged = cfgh.make(case["prods"], case["vpool"], case["tpool"], declare=case.get("declare", False), container=case.get("container"))
     G = cfgh.project(g)
     evs = [{"op": "new", "G": G, "start": start, "prods": tagged}]
     evs.append(cfgh.bool_event("is_empty", G, guard.call(g.is_empty)))
@@ -93,7 +93,7 @@ def replay(case):
         ns.append(-1)
     for n in ns:
         # a fresh object per enumeration bound: history effects (cached normal form) belong to C19
-        g2, _, _ = cfgh.make(case["prods"], case["vpool"], case["tpool"], declare=case.get("declare", False))
+        g2, _, _ = cfgh.make(case["prods"], case["vpool"], case["tpool"], declare=case.get("declare", False), container=case.get("container"))
         r = guard.take(lambda: g2.get_words(n), 600, timeout=3.0)
         ev = {"op": "get_words", "G": G, "n": n, "K": 30, "items": [], "status": r[0], "exhausted": False}
         if r[0] == "ok":
